@@ -305,6 +305,7 @@ def gen_scenario(rng, ops=None, force=None):
         params["nodata_via"] = rng.choice(["attr", "arg"])
         params["groups"] = None
         params["cal"] = None
+        params["dtype"] = rng.choice([None, None, None, "int16", "float32", "int32"])
         if variant.startswith("groups"):
             T = max(T, 9)
             k = rng.randint(1, max(1, T // 4))
@@ -347,6 +348,7 @@ def gen_scenario(rng, ops=None, force=None):
     elif op == "rolling_sum":
         dtype = rng.choice(["float32", "int16", "int64"])
         params["window"] = rng.choice([1, 2, 3, T, rng.randint(1, T)])
+        params["dtype"] = rng.choice([None, None, None, "float32", "float64", "int32"])
         params["nodata_via"] = rng.choice(["attr", "arg"])
         kind = rng.choice(["precip", "smallint"])
     elif op == "zonal_mean":
